@@ -171,6 +171,8 @@ func genC06(r *Rand, tier string, i int) *h.Scenario {
 	p.PTerminal = 0.1
 	p.PQueueAfter = 0
 	p.PPop = 0.3
+	p.PrioAfterFinish = true
+	p.PPostTerminalOps = 0.5
 	p.MaxDecs = 1
 	p.PExt = 0.1
 	if tier == "thorough" {
@@ -284,25 +286,21 @@ func judgeC06(hi *Hist) []*Violation {
 				m.popd = true
 			}
 			list := hist[g.Bar]
-			settled := math.MinInt64
-			var cur *prioAssign
-			for i := range list {
-				a := &list[i]
-				if a.ret < lo || (k == 0 && a.ret < hiB) {
-					if a.ret > settled {
-						settled = a.ret
-						cur = a
-					}
-				}
-			}
-			if cur != nil {
-				m.set = append(m.set, cur.prio)
-			}
-			for _, a := range list {
-				if a.inv < hiB && a.ret >= lo && (cur == nil || a != *cur) {
+			// assignments in the order in which they returned; one that returned only after Wait had been
+			// entered may have lost the race with the container's shutdown (the call then does nothing)
+			ord := append([]prioAssign{}, list...)
+			sort.Slice(ord, func(i, j int) bool { return ord[i].ret < ord[j].ret })
+			for _, a := range ord {
+				settledBefore := a.ret < lo || (k == 0 && a.ret < hiB)
+				maybe := hi.WaitIn >= 0 && a.ret > hi.WaitIn
+				switch {
+				case settledBefore && !maybe:
+					m.set = []int{a.prio}
+				case settledBefore && maybe:
 					m.set = append(m.set, a.prio)
+				case a.inv < hiB && a.ret >= lo:
+					m.set = append(m.set, a.prio) // overlaps the start of this cycle
 				}
-				// a lazy change processed during the previous cycle may or may not have been visible to it
 			}
 			if len(m.set) == 0 && len(list) > 0 {
 				m.set = append(m.set, list[0].prio)
